@@ -27,7 +27,7 @@ ID = "C20"
 LEVEL = "exploration"
 RUNS = {"quick": 9100, "thorough": 250000}
 BUDGET = {"quick": 80, "thorough": 1800}
-RULE = ("one run = one fresh shared world + a seeded list of 2-32 operations from a 70-entry catalogue, executed by that many "
+RULE = ("one run = one fresh shared world + a seeded list of 2-32 operations from an 84-entry catalogue, executed by that many "
         "caller threads under one seeded schedule: sequential history | sweep1 (one pre-emption at a chosen line of the first "
         "operation, index-driven so that consecutive runs walk the pre-emption points) | PCT(d<=3) | random switching "
         "(p in 0.02..0.5), line granular, opcode granular inside the hot functions for a third of the runs; "
@@ -85,6 +85,13 @@ class World:
             "ed": OKPKey.import_key(K.pem(mt["ed"], False)),
             "x": OKPKey.import_key(K.pem(mt["x"], False)),
         }
+        from joserfc.jwt import JWTClaimsRegistry
+        from joserfc.rfc7797 import JWSRegistry as R7797
+        from .. import jweworld as JW_
+        JW_.ensure_drafts_registered()
+        self.claims_reg = JWTClaimsRegistry(now=1500, leeway=5, sub={"essential": True, "value": "alice"}, aud={"values": ["a", "b"]})
+        self.reg7797 = R7797(algorithms=["HS256", "ES256"])
+        self.reg_1pu = JWERegistry(algorithms=["ECDH-1PU", "ECDH-1PU+A128KW", "A128GCM", "A128CBC-HS256"])
         self.reg = {
             "jws-all": JWSRegistry(algorithms=ALLJWS),
             "jws-hs384": JWSRegistry(algorithms=["HS384"]),
@@ -138,6 +145,15 @@ def prepare_inputs(w: World, label: str = "") -> None:
         obj.add_recipient({"alg": "A128KW", "kid": "oct16"}, ik["oct16"])
         obj.add_recipient({"alg": "ECDH-ES+A128KW", "kid": "ec2"}, ik["ec2"])
         i["multi"] = jwe.encrypt_json(obj, None)
+        i["pbes2"] = jwe.encrypt_compact({"alg": "PBES2-HS256+A128KW", "enc": "A128GCM", "p2c": 4}, b"plain-pbes2", ik["oct"], registry=w.reg["jwe-all"])
+        i["gcmkw"] = jwe.encrypt_compact({"alg": "A128GCMKW", "enc": "A128GCM"}, b"plain-gcmkw", ik["oct16"], registry=w.reg["jwe-all"])
+        i["1pu"] = jwe.encrypt_compact({"alg": "ECDH-1PU", "enc": "A128GCM"}, b"plain-1pu", ik["ec"], registry=w.reg_1pu, sender_key=ik["ec2"])
+        i["jwt-jwe"] = jwt.encode({"alg": "A128KW", "enc": "A128GCM"}, {"sub": "carol", "n": 3}, ik["oct16"], registry=w.reg["jwe-all"])
+        from joserfc import rfc7797 as _r7797
+        i["7797json"] = _r7797.serialize_json({"protected": {"alg": "HS256", "b64": False, "crit": ["b64"]}}, "payload 7797 json", ik["oct"])
+        fo = jwe.FlattenedJSONEncryption({"enc": "A128CBC-HS256"}, b"plain-flat", None, b"the aad")
+        fo.add_recipient({"alg": "A128KW"}, ik["oct16"])
+        i["flat"] = jwe.encrypt_json(fo, None)
     for name in ("hs", "es", "rs", "ed", "kw", "dir", "ecdh", "oaep"):
         t = i[name].split(".")
         seg = 1 if len(t) == 3 else 3
@@ -253,6 +269,21 @@ def _ops():
     @op("sign-shared-set-random", "jws")
     def _(w): return jws.serialize_compact({"alg": "HS256"}, b"m-shared-set-rnd", w.sets["priv"])
 
+    @op("enc-flat-aad", "jwe-flat")
+    def _(w):
+        o = jwe.FlattenedJSONEncryption({"enc": "A128CBC-HS256"}, b"p-flat", None, b"aad-1")
+        o.add_recipient({"alg": "A128KW"}, w.k["oct16"])
+        return jwe.encrypt_json(o, None)
+
+    @op("enc-1pu", "jwe-1pu")
+    def _(w): return jwe.encrypt_compact({"alg": "ECDH-1PU+A128KW", "enc": "A128CBC-HS256"}, b"p-1pu", w.p["ec"], registry=w.reg_1pu, sender_key=w.k["ec2"])
+
+    @op("jwt-encode-jwe", "jwe")
+    def _(w): return jwt.encode({"alg": "A128KW", "enc": "A128GCM"}, {"sub": "dave"}, w.k["oct16"], registry=w.reg["jwe-all"])
+
+    @op("sign-7797-json", "jws-7797-json")
+    def _(w): return rfc7797.serialize_json({"protected": {"alg": "ES256", "b64": False, "crit": ["b64"]}}, "m 7797 json", w.k["ec"], registry=w.reg7797)
+
     @op("enc-set-random", "jwe-set")
     def _(w):
         ks = KeySet([w.k["ec"], w.k["oct"]])
@@ -293,6 +324,16 @@ def _ops():
     cons("dec-oaep", lambda w: jwe.decrypt_compact(w.inputs["oaep"], w.k["rsa"]).plaintext)
     cons("dec-multi-set", lambda w: jwe.decrypt_json(w.inputs["multi"], KeySet([w.k["oct16"], w.k["ec2"]])).plaintext)
     cons("dec-multi-any", lambda w: jwe.decrypt_json(w.inputs["multi"], w.k["oct16"], registry=w.reg["jwe-any"]).plaintext)
+    cons("dec-pbes2", lambda w: jwe.decrypt_compact(w.inputs["pbes2"], w.k["oct"], registry=w.reg["jwe-all"]).plaintext)
+    cons("dec-gcmkw", lambda w: jwe.decrypt_compact(w.inputs["gcmkw"], w.k["oct16"], registry=w.reg["jwe-all"]).plaintext)
+    cons("dec-1pu", lambda w: jwe.decrypt_compact(w.inputs["1pu"], w.k["ec"], registry=w.reg_1pu, sender_key=w.p["ec2"]).plaintext)
+    cons("dec-1pu-no-sender", lambda w: jwe.decrypt_compact(w.inputs["1pu"], w.k["ec"], registry=w.reg_1pu).plaintext)
+    cons("dec-flat-aad", lambda w: (lambda o: [o.plaintext.decode(), o.aad.decode()])(jwe.decrypt_json(w.inputs["flat"], w.k["oct16"])))
+    cons("jwt-decode-jwe", lambda w: jwt.decode(w.inputs["jwt-jwe"], w.k["oct16"], registry=w.reg["jwe-all"]).claims)
+    cons("verify-7797-json", lambda w: rfc7797.deserialize_json(w.inputs["7797json"], w.k["oct"], registry=w.reg7797).payload)
+    cons("claims-shared-ok", lambda w: w.claims_reg.validate({"sub": "alice", "aud": ["b", "z"], "exp": 1500, "iat": 1504}))
+    cons("claims-shared-bad-aud", lambda w: w.claims_reg.validate({"sub": "alice", "aud": "z", "exp": 9999}))
+    cons("claims-shared-missing", lambda w: w.claims_reg.validate({"aud": "a"}))
     cons("dec-wrong-key", lambda w: jwe.decrypt_compact(w.inputs["kw"], w.k["oct"]).plaintext)
 
     # ---- key operations touching lazy state -----------------------------
@@ -350,6 +391,13 @@ def canon(w: World, name: str, kind: str, result) -> tuple:
         return ("ok", "jwe", hdr)
     if kind == "jwe-json":
         return ("ok", "jwe-json", sorted(val), [r.get("header", {}).get("kid") for r in val["recipients"]])
+    if kind == "jwe-flat":
+        return ("ok", "jwe-flat", sorted(val), val.get("aad"), val.get("protected"), val.get("header"))
+    if kind == "jwe-1pu":
+        hdr = json.loads(b64.dec(val.split(".")[0]))
+        return ("ok", "jwe", {k: (v if k != "epk" else "<generated>") for k, v in hdr.items()})
+    if kind == "jws-7797-json":
+        return ("ok", "jws-7797-json", val.get("payload"), val.get("protected"), val.get("header"))
     if isinstance(val, (bytes, bytearray)):
         return ("ok", bytes(val))
     val = json.loads(json.dumps(val, sort_keys=True, default=repr))
@@ -369,7 +417,7 @@ def _material_for(w: World, name: str):
         "sign-ps256": "rsa", "sign-es384": "p384", "sign-hs384-own-registry": "oct", "sign-7797": "oct", "jwt-encode": "ec",
         "enc-a128kw": "oct16", "enc-dir": "oct", "enc-ecdh-ec": "ec", "enc-ecdh-x25519": "x", "enc-oaep": "rsa",
         "enc-gcmkw": "oct16", "enc-pbes2": "oct", "enc-set-random": "ec", "sign-shared-set": "ec2",
-        "sign-shared-set-random": "oct16",
+        "sign-shared-set-random": "oct16", "jwt-encode-jwe": "oct16",
     }.get(name)
 
 
@@ -394,6 +442,18 @@ def check_product(w: World, name: str, kind: str, result) -> list[str]:
         v = rjwe.decrypt(val, lambda m, i: key)
         if not v.ok:
             probs.append("token produced by %s does not decrypt at the reference peer: %s" % (name, v.reason))
+    elif kind == "jwe-flat":
+        v = rjwe.decrypt(val, lambda m, i: w.mat["oct16"])
+        if not v.ok or v.plaintext != b"p-flat" or v.aad != b"aad-1":
+            probs.append("flattened JWE with aad produced under concurrency does not decrypt at the reference peer: %s" % v.reason)
+    elif kind == "jwe-1pu":
+        v = rjwe.decrypt(val, lambda m, i: w.mat["ec"], lambda m, i: w.mat["ec2"].public())
+        if not v.ok or v.plaintext != b"p-1pu":
+            probs.append("ECDH-1PU token produced under concurrency does not decrypt at the reference peer: %s" % v.reason)
+    elif kind == "jws-7797-json":
+        v = rjws.verify(val, lambda m, i: w.mat["ec"], None)
+        if not v.ok or v.payload != b"m 7797 json":
+            probs.append("RFC 7797 JSON token produced under concurrency does not verify: %s" % v.reason)
     elif kind == "jwe-json":
         keys = {"ec2": w.mat["ec2"], "oct16": w.mat["oct16"]}
         v = rjwe.decrypt(val, lambda m, i: keys.get(m.get("kid")))
@@ -406,7 +466,7 @@ def fresh_values(name: str, kind: str, result) -> list[tuple[str, bytes]]:
     """per-call random values that must be pairwise distinct across producers"""
     status, val = result
     out = []
-    if status != "ok" or kind not in ("jwe", "jwe-set", "jwe-json"):
+    if status != "ok" or kind not in ("jwe", "jwe-set", "jwe-json", "jwe-flat", "jwe-1pu"):
         return out
     if isinstance(val, str):
         p = val.split(".")
@@ -417,7 +477,7 @@ def fresh_values(name: str, kind: str, result) -> list[tuple[str, bytes]]:
         hs = [hdr]
     else:
         out.append(("iv", b64.dec(val["iv"])))
-        hs = [r.get("header", {}) for r in val["recipients"]]
+        hs = [r.get("header", {}) for r in val["recipients"]] if "recipients" in val else [val.get("header", {})]
     for h in hs:
         if isinstance(h.get("epk"), dict):
             out.append(("epk", h["epk"]["x"].encode()))
